@@ -359,7 +359,7 @@ func (g *gen) genProgram(c *Case) *progInfo {
 		script = append(script, DefOp{Op: "argcomp", H: 0, L: [][]string{{"sugg1", "sugg2"}, {"list", "lisp"}, {"x"}}[g.r.Intn(3)]})
 	}
 	if g.p(0.08) {
-		script = append(script, DefOp{Op: "argfn", H: 0, N: g.r.Intn(3)})
+		script = append(script, DefOp{Op: "argfn", H: 0, N: g.r.Intn(3), InitIS: g.moreFns()})
 		if g.p(0.4) {
 			// a second ArgCompletionsFns call on the same command: the functions accumulate
 			script = append(script, DefOp{Op: "argfn", H: 0, N: g.r.Intn(3)})
@@ -463,7 +463,7 @@ func (g *gen) genProgram(c *Case) *progInfo {
 					script = append(script, DefOp{Op: "argcomp", H: h, L: []string{"carg1", "carg2"}})
 				}
 				if g.p(0.05) {
-					script = append(script, DefOp{Op: "argfn", H: h, N: g.r.Intn(3)})
+					script = append(script, DefOp{Op: "argfn", H: h, N: g.r.Intn(3), InitIS: g.moreFns()})
 					if g.p(0.4) {
 						script = append(script, DefOp{Op: "argfn", H: h, N: g.r.Intn(3)})
 					}
@@ -965,4 +965,17 @@ func (g *gen) genCase(id int) *Case {
 
 func newGen(seed int64, prop string) *gen {
 	return &gen{r: rand.New(rand.NewSource(seed)), f: defaultFocus(prop)}
+}
+
+// further completion functions for one ArgCompletionsFns call (distinct ids, so a call that registers the same
+// function for every argument is told apart)
+func (g *gen) moreFns() []int {
+	if !g.p(0.5) {
+		return nil
+	}
+	out := []int{3 + g.r.Intn(2)}
+	if g.p(0.4) {
+		out = append(out, 5+g.r.Intn(2))
+	}
+	return out
 }
